@@ -154,6 +154,102 @@ Theorem C16g_link_rigid_suffix_match :
 Proof. exact link_rigid_suffix_match. Qed.
 Print Assumptions C16g_link_rigid_suffix_match.
 
+Theorem C16g_link_shift_loop :
+  forall (d : nat) (l acc : list BasePattern),
+       Forall
+         (fun p : BasePattern => (d <= BasePattern_start p)%nat /\ (d <= BasePattern_end p)%nat) l ->
+       shift_res (fn_shift_pattern_start_loop1 l d acc) =
+       Some (map convb acc ++ map (fun q : bpat => b_shift q d) (map convb l)).
+Proof. exact link_shift_loop. Qed.
+Print Assumptions C16g_link_shift_loop.
+
+Theorem C16g_link_shift_pattern_start :
+  forall (l : list BasePattern) (d : nat),
+       Forall
+         (fun p : BasePattern => (d <= BasePattern_start p)%nat /\ (d <= BasePattern_end p)%nat) l ->
+       option_map (fun r : list BasePattern * unit => map convb (fst r))
+         (M_fn_shift_pattern_start l d) = Some (map (fun q : bpat => b_shift q d) (map convb l)).
+Proof. exact link_shift_pattern_start. Qed.
+Print Assumptions C16g_link_shift_pattern_start.
+
+Theorem C16g_link_frm_loop :
+  forall (u v : list RE) (pats0 l acc : list BasePattern) (i : nat),
+       Forall (rigid_ok v) l ->
+       frm_res (fn_find_rigid_matches_loop1 l u v pats0 acc i) =
+       Some
+         (let
+          '(ok, t') := find_rigid_matches (map conv_re u) (map conv_re v) (map convb l) i in
+           (ok, map convb acc ++ t')).
+Proof. exact link_frm_loop. Qed.
+Print Assumptions C16g_link_frm_loop.
+
+Theorem C16g_link_find_rigid_matches :
+  forall (u v : list RE) (l : list BasePattern),
+       Forall (rigid_ok v) l ->
+       option_map (fun r : list BasePattern * bool => (snd r, map convb (fst r)))
+         (M_fn_find_rigid_matches u v l) =
+       Some (find_rigid_matches (map conv_re u) (map conv_re v) (map convb l) 0).
+Proof. exact link_find_rigid_matches. Qed.
+Print Assumptions C16g_link_find_rigid_matches.
+
+Theorem C16g_link_sfr_loop :
+  forall (slen : nat) (rest done : list BasePattern),
+       exists R : list BasePattern,
+         sfr_res
+           (fn_set_flexible_regions_loop1 (seq (length done) (length rest)) slen (done ++ rest)) =
+         Some (done ++ R) /\
+         map convb R = set_flexible_regions_go (last_em done) (map convb rest) slen.
+Proof. exact link_sfr_loop. Qed.
+Print Assumptions C16g_link_sfr_loop.
+
+Theorem C16g_link_set_flexible_regions :
+  forall (l : list BasePattern) (slen : nat),
+       option_map (fun r : list BasePattern * unit => map convb (fst r))
+         (M_fn_set_flexible_regions l slen) = Some (set_flexible_regions (map convb l) slen).
+Proof. exact link_set_flexible_regions. Qed.
+Print Assumptions C16g_link_set_flexible_regions.
+
+Theorem C16g_link_mf_loop :
+  forall (u v : list RE) (pats0 l acc : list BasePattern),
+       Forall (fun p : BasePattern => flex_ok u v (convb p)) l ->
+       mf_res (fn_match_flexible_patterns_loop1 l u v pats0 acc) =
+       Some
+         (forallb
+            (fun p : bpat =>
+             b_rigid p || flexible_match (slice (map conv_re v) (b_start p) (b_end p)))
+            (map convb l), map convb (acc ++ l)).
+Proof. exact link_mf_loop. Qed.
+Print Assumptions C16g_link_mf_loop.
+
+Theorem C16g_link_match_flexible_patterns :
+  forall (u v : list RE) (l : list BasePattern),
+       Forall (flex_ok u v) (set_flexible_regions (map convb l) (length u)) ->
+       option_map (fun r : list BasePattern * bool => snd r) (M_fn_match_flexible_patterns u v l) =
+       Some (match_flexible_patterns (map conv_re u) (map conv_re v) (map convb l)).
+Proof. exact link_match_flexible_patterns. Qed.
+Print Assumptions C16g_link_match_flexible_patterns.
+
+Theorem C16g_link_frmr_loop :
+  forall (u v : list RE) (pats0 l acc : list BasePattern) (i : nat),
+       Forall (rigid_ok v) l ->
+       (i <= length u)%nat ->
+       frmr_res (fn_find_rigid_matches_rev_loop1 l u v pats0 acc i) =
+       Some
+         (let
+          '(ok, t') := find_rigid_matches_rev_go (map conv_re u) (map conv_re v) (map convb l) i in
+           (ok, rev (map convb acc ++ t'))).
+Proof. exact link_frmr_loop. Qed.
+Print Assumptions C16g_link_frmr_loop.
+
+Theorem C16g_link_find_rigid_matches_rev :
+  forall (u v : list RE) (l : list BasePattern),
+       Forall (rigid_ok v) l ->
+       option_map (fun r : list BasePattern * bool => (snd r, map convb (fst r)))
+         (M_fn_find_rigid_matches_rev u v l) =
+       Some (find_rigid_matches_rev (map conv_re u) (map conv_re v) (map convb l)).
+Proof. exact link_find_rigid_matches_rev. Qed.
+Print Assumptions C16g_link_find_rigid_matches_rev.
+
 (* ---- C16 statements on the translated code ---- *)
 
 Theorem C16g_base_patterns_tiles :
